@@ -96,6 +96,40 @@ def valsOn : List Atom → List Val
   | [] => [fun _ => false]
   | a :: as => (valsOn as).flatMap (fun v => [v, fun b => if b = a then true else v b])
 
+/-- `valsOn` enumerates **every** valuation of the listed atoms: any valuation that is false outside the list agrees
+    everywhere with a member of the enumeration (so a `checkFlags … = true` obligation covers all cases) -/
+theorem valsOn_complete : ∀ (atoms : List Atom) (v : Val), (∀ a, a ∉ atoms → v a = false) →
+    ∃ w ∈ valsOn atoms, ∀ a, w a = v a
+  | [], v, h => ⟨fun _ => false, by simp [valsOn], fun a => (h a (by simp)).symm⟩
+  | a :: as, v, h => by
+    -- the valuation with `a` switched off (unless it occurs again in `as`) is covered by the induction hypothesis
+    let v' : Val := fun b => if b = a ∧ a ∉ as then false else v b
+    have hv' : ∀ b, b ∉ as → v' b = false := by
+      intro b hb
+      by_cases hba : b = a
+      · subst hba; simp [v', hb]
+      · have : b ∉ a :: as := by simp [hba, hb]
+        simp [v', hba, h b this]
+    obtain ⟨w, hw, hwv⟩ := valsOn_complete as v' hv'
+    by_cases hva : v a = true
+    · refine ⟨fun b => if b = a then true else w b, ?_, ?_⟩
+      · simp only [valsOn, List.mem_flatMap]
+        exact ⟨w, hw, by simp⟩
+      · intro b
+        by_cases hba : b = a
+        · subst hba; simp [hva]
+        · simp [hba, hwv b, v']
+    · refine ⟨w, ?_, ?_⟩
+      · simp only [valsOn, List.mem_flatMap]
+        exact ⟨w, hw, by simp⟩
+      · intro b
+        rw [hwv b]
+        by_cases hba : b = a
+        · subst hba
+          have : v b = false := by simpa using hva
+          simp [v', this]
+        · simp [v', hba]
+
 def fuel : Nat := 64
 
 def run (lossInit body : List Stmt) (v : Val) : Option St := exec lossInit v fuel body (none, none)
@@ -141,6 +175,16 @@ def consistent (v : Val) : Bool := !(v .aIdentity) || v .aLinear
 
 def checkFlags (lossInit body : List Stmt) (atoms : List Atom) (expect : Val → Option St) : Bool :=
   (valsOn atoms).all (fun v => !consistent v || run lossInit body v == expect v)
+
+/-- meaning of a discharged flag obligation: on every consistent valuation of the tested conditions the constructor body
+    computes the flags the model assumes -/
+theorem checkFlags_sound (lossInit body : List Stmt) (atoms : List Atom) (expect : Val → Option St)
+    (h : checkFlags lossInit body atoms expect = true) :
+    ∀ w ∈ valsOn atoms, consistent w = true → run lossInit body w = expect w := by
+  intro w hw hc
+  have := List.all_eq_true.mp h w hw
+  simp only [hc, Bool.not_true, Bool.false_or, beq_iff_eq] at this
+  exact this
 
 /-! ### call sites, defaults, metric functions, exceptions: plain tables -/
 
@@ -205,5 +249,74 @@ def expectedProxClasses : List String :=
 
 /-- classes of `loss.py` deriving from `Loss` (the model's `LossCls`) -/
 def expectedLossClasses : List String := ["SquaredL2Loss", "PoissonLoss", "SquaredL2AbsLoss", "SquaredL2SquaredAbsLoss"]
+
+/-- `return` expressions of the evaluation methods (and of the wrapper / loss / runnable leaf `prox` methods) the model
+    transcribes, as source text (`ast.unparse`): `eval`, `prox`, `conjProx` of `Model/ProxCalc`, the formulas of `Model/FuncEval`,
+    the metrics.  (Proximal maps of the other base functionals belong to property C02.) -/
+def expectedReturns : List (String × List String) :=
+  [("Functional.conj_prox", ["v - lam * self.prox(v / lam, 1.0 / lam, **kwargs)"]),
+   ("ScaledFunctional.__call__", ["self.scale * self.functional(x)"]),
+   ("ScaledFunctional.prox", ["self.functional.prox(v, lam * self.scale, **kwargs)"]),
+   ("SeparableFunctional.__call__", ["snp.sum(snp.array([fi(xi) for fi, xi in zip(self.functional_list, x)]))"]),
+   ("SeparableFunctional.prox", ["snp.blockarray([fi.prox(vi, lam, **kwargs) for fi, vi in zip(self.functional_list, v)])"]),
+   ("FunctionalSum.__call__", ["self.functional1(x) + self.functional2(x)"]),
+   ("ZeroFunctional.__call__", ["0.0"]),
+   ("ZeroFunctional.prox", ["v"]),
+   ("Loss.__call__", ["self.scale * self.f(self.A(x) - self.y)"]),
+   ("Loss.prox", ["self.f.prox(v - self.y, self.scale * lam, **kwargs) + self.y"]),
+   ("SquaredL2Loss.__call__", ["self.scale * snp.sum(self.W.diagonal * snp.abs(self.y - self.A(x)) ** 2)"]),
+   ("SquaredL2Loss.prox", ["lhs / (ATWA + 1.0)", "x"]),
+   ("PoissonLoss.__call__", ["self.scale * snp.sum(Ax - self.y * snp.log(Ax) + self.const)"]),
+   ("SquaredL2AbsLoss.__call__", ["self.scale * snp.sum(self.W.diagonal * snp.abs(self.y - snp.abs(self.A(x))) ** 2)"]),
+   ("SquaredL2SquaredAbsLoss.__call__", ["self.scale * snp.sum(self.W.diagonal * snp.abs(self.y - snp.abs(self.A(x)) ** 2) ** 2)"]),
+   ("L0Norm.__call__", ["count_nonzero(x)"]),
+   ("L1Norm.__call__", ["snp.sum(snp.abs(x))"]),
+   ("SquaredL2Norm.__call__", ["snp.sum(snp.abs(x) ** 2)"]),
+   ("SquaredL2Norm.prox", ["v / (1.0 + 2.0 * lam)"]),
+   ("L2Norm.__call__", ["norm(x)"]),
+   ("L2Norm.prox", ["snp.where(norm_v == 0, 0 * v, snp.maximum(1 - lam / norm_v, 0) * v)"]),
+   ("L21Norm._l2norm", ["snp.where(nz, snp.sqrt(snp.where(nz, l2sq, 1.0)), 0.0)"]),
+   ("L21Norm.__call__", ["snp.sum(snp.abs(l2))"]),
+   ("L1MinusL2Norm.__call__", ["snp.sum(snp.abs(x)) - self.beta * norm(x)"]),
+   ("HuberNorm._call_sep", ["snp.sum(hx)"]),
+   ("HuberNorm._call_nonsep", ["lax.cond(snp.sqrt(xl2sq) <= self.delta, self._call_lt_branch, self._call_gt_branch, xl2sq, snp.asarray(self.delta, dtype=xl2sq.dtype))"]),
+   ("HuberNorm.__call__", ["self._call(x)"]),
+   ("NuclearNorm.__call__", ["snp.sum(snp.linalg.svd(x, full_matrices=False, compute_uv=False))"]),
+   ("NonNegativeIndicator.__call__", ["jax.lax.cond(snp.any(x < 0), lambda x: snp.inf, lambda x: 0.0, None)"]),
+   ("NonNegativeIndicator.prox", ["snp.maximum(v, 0)"]),
+   ("L2BallIndicator.__call__", ["jax.lax.cond(norm(x) > self.radius, lambda x: snp.inf, lambda x: 0.0, None)"]),
+   ("SetDistance.__call__", ["snp.where(nz, snp.sqrt(snp.where(nz, dsq, 1.0)), 0.0)"]),
+   ("SquaredSetDistance.__call__", ["0.5 * snp.sum(snp.abs(x - y) ** 2)"]),
+   ("TVNorm.__call__", ["self.norm(self.G @ x)"]),
+   ("ProximalAverage.__call__", ["sum(weight_func_vals)"]),
+   ("ProximalAverage.prox", ["sum([alpha * f.prox(v, lam, **kwargs) for alpha, f in zip(self.alpha_list, self.func_list)])"]),
+   ("metric.mae", ["snp.mean(snp.abs(_flatten(reference - comparison)))"]),
+   ("metric.mse", ["snp.mean(snp.abs(_flatten(reference - comparison)) ** 2)"]),
+   ("metric.snr", ["10.0 * snp.log10(rt)"]),
+   ("metric.psnr", ["10.0 * snp.log10(rt)"]),
+   ("metric.isnr", ["10.0 * snp.log10(rt)"]),
+   ("metric.bsnr", ["10.0 * snp.log10(rt)"]),
+   ("metric.rel_res", ["0.0", "snp.linalg.norm((b - ax).ravel()) / nrm"])]
+
+/-- local formulas of `SquaredL2Loss.prox` (both branches) and of `hessian` (`sqL2DiagProx`, `sqL2Lhs`, `sqL2Rhs`, `sqL2X0`) -/
+def expectedAssigns : List (String × String × String) :=
+  [("SquaredL2Loss.prox", "c", "2.0 * self.scale * lam"),
+   ("SquaredL2Loss.prox", "A", "self.A.diagonal"),
+   ("SquaredL2Loss.prox", "W", "self.W.diagonal"),
+   ("SquaredL2Loss.prox", "lhs", "c * A.conj() * W * self.y + v"),
+   ("SquaredL2Loss.prox", "ATWA", "c * A.conj() * W * A"),
+   ("SquaredL2Loss.prox", "W", "self.W"),
+   ("SquaredL2Loss.prox", "A", "self.A"),
+   ("SquaredL2Loss.prox", "α", "self.scale"),
+   ("SquaredL2Loss.prox", "y", "self.y"),
+   ("SquaredL2Loss.prox", "x0", "kwargs['x0']"),
+   ("SquaredL2Loss.prox", "x0", "snp.zeros_like(v)"),
+   ("SquaredL2Loss.prox", "hessian", "self.hessian"),
+   ("SquaredL2Loss.prox", "lhs", "linop.Identity(v.shape) + lam * hessian"),
+   ("SquaredL2Loss.prox", "rhs", "v + 2 * lam * α * A.adj(W(y))"),
+   ("SquaredL2Loss.hessian", "A", "self.A"),
+   ("SquaredL2Loss.hessian", "W", "self.W"),
+   ("SquaredL2Loss.hessian", "eval_fn", "lambda x: 2 * self.scale * A.adj(W(A(x)))"),
+   ("SquaredL2Loss.hessian", "adj_fn", "lambda x: 2 * self.scale * A.adj(W(A(x)))")]
 
 end Scico.ProxCalc.Tables
